@@ -495,7 +495,13 @@ impl<'tera> VirtualMachine<'tera> {
                         state.blocks[pos].2 = level + 1;
                         let mut super_output = Vec::with_capacity(128);
                         let old_capture_buffers = std::mem::take(&mut state.capture_buffers);
+                        #[cfg(feature = "verif-hooks")]
+                        let verif_before = state.verif_sizes();
                         let res = self.interpret(state, &mut super_output);
+                        #[cfg(feature = "verif-hooks")]
+                        if res.is_ok() {
+                            crate::verif::render_end("super", verif_before, state.verif_sizes());
+                        }
                         state.capture_buffers = old_capture_buffers;
                         state.chunk = old_chunk;
                         state.blocks[pos].2 = level;
@@ -573,6 +579,8 @@ impl<'tera> VirtualMachine<'tera> {
                     let old_chunk = state.chunk.replace(block_chunk);
                     state.blocks.push((block_name, block_lineage, 0));
                     let old_block_name = state.current_block_name.replace(block_name);
+                    #[cfg(feature = "verif-hooks")]
+                    let verif_before = state.verif_sizes();
                     let res = if state.capture_block == Some(block_name.as_str()) {
                         let mut buf = Vec::with_capacity(256);
                         let r = self.interpret(state, &mut buf);
@@ -581,6 +589,10 @@ impl<'tera> VirtualMachine<'tera> {
                     } else {
                         self.interpret(state, output)
                     };
+                    #[cfg(feature = "verif-hooks")]
+                    if res.is_ok() {
+                        crate::verif::render_end("block", verif_before, state.verif_sizes());
+                    }
                     state.chunk = old_chunk;
                     state.current_block_name = old_block_name;
                     state.blocks.pop();
@@ -947,6 +959,8 @@ impl<'tera> VirtualMachine<'tera> {
         state.filters = Some(&self.tera.filters);
         let mut output = Vec::with_capacity(1024);
         vm.interpret(&mut state, &mut output)?;
+        #[cfg(feature = "verif-hooks")]
+        crate::verif::render_end("component", (0, 0, 0), state.verif_sizes());
 
         Ok(String::from_utf8(output)?)
     }
@@ -970,6 +984,8 @@ impl<'tera> VirtualMachine<'tera> {
         include_state.include_parent = Some(state);
         include_state.filters = Some(&self.tera.filters);
         vm.interpret(&mut include_state, output)?;
+        #[cfg(feature = "verif-hooks")]
+        crate::verif::render_end("include", (0, 0, 0), include_state.verif_sizes());
         Ok(())
     }
 
@@ -1016,9 +1032,13 @@ impl<'tera> VirtualMachine<'tera> {
             state.capture_block = Some(block);
             // we don't care about keeping the full rendered template
             self.interpret(&mut state, &mut io::sink())?;
+            #[cfg(feature = "verif-hooks")]
+            crate::verif::render_end("render", (0, 0, 0), state.verif_sizes());
             output.write_all(&state.block_buffer)?;
         } else {
             self.interpret(&mut state, &mut output)?;
+            #[cfg(feature = "verif-hooks")]
+            crate::verif::render_end("render", (0, 0, 0), state.verif_sizes());
         }
         Ok(())
     }
